@@ -60,7 +60,7 @@ def strings_job(n):
         try:
             Stabilizer(list(lst))
             ok = False
-        except (ValueError, AssertionError, IndexError):
+        except Exception:             # which exception type rejects a malformed list is not part of the property
             ok = True
         out.append(("C14.parse.rejects_malformed", ok, f"bad:{n}:{lst}", f"Stabilizer({lst}) accepted a malformed list", {"n": n, "paulis": lst}))
     return out
